@@ -15,6 +15,10 @@ IsCSIAt(s, i) == i + 1 <= Len(s) /\ s[i] = ESC /\ s[i+1] = LBRK
 \* index of the first final byte at or after i, 0 if there is none
 RECURSIVE FirstFinal(_, _)
 FirstFinal(s, i) == IF i > Len(s) THEN 0 ELSE IF IsFinal(s[i]) THEN i ELSE FirstFinal(s, i+1)
+\* where the body of a control sequence that starts before i stops: at its final byte, or at an ESC - which is neither a
+\* parameter byte nor a final byte and ABORTS the sequence (it is not consumed: a new sequence may start there); 0: at the end
+RECURSIVE BodyStop(_, _)
+BodyStop(s, i) == IF i > Len(s) THEN 0 ELSE IF IsFinal(s[i]) \/ s[i] = ESC THEN i ELSE BodyStop(s, i+1)
 
 ---------------------------------------------------------------------------
 \* Tokens of rendered output: <<"c", <<cp>>>>, <<"sgr", params>>, <<"csi", whole>>, <<"open", rest>>
@@ -22,8 +26,9 @@ RECURSIVE TokSgr(_, _)
 TokSgr(s, i) ==
   IF i > Len(s) THEN << >>
   ELSE IF IsCSIAt(s, i) THEN
-    LET j == FirstFinal(s, i + 2) IN
+    LET j == BodyStop(s, i + 2) IN
     IF j = 0 THEN << <<"open", SubSeq(s, i, Len(s))>> >>
+    ELSE IF s[j] = ESC THEN << <<"csi", SubSeq(s, i, j - 1)>> >> \o TokSgr(s, j)       \* aborted by the ESC
     ELSE IF s[j] = LOWM THEN << <<"sgr", SubSeq(s, i + 2, j - 1)>> >> \o TokSgr(s, j + 1)
     ELSE << <<"csi", SubSeq(s, i, j)>> >> \o TokSgr(s, j + 1)
   ELSE << <<"c", <<s[i]>> >> >> \o TokSgr(s, i + 1)
@@ -66,17 +71,18 @@ StripSgr(s) == CharsOf(SelectSeq(Tokens(s), LAMBDA t : t[1] # "sgr" \/ ~(\A k \i
 (* <<set-as-sequence>> of acceptable final bytes.  A sequence is           *)
 (* <<pos, body, term>>: pos = number of text characters before it,         *)
 (* term = << >> (unterminated) or <<cp>>.                                  *)
-(* Body = the maximal run of non-final bytes (the implementation's         *)
-(* reading); InClaimCS says when the stricter readings agree.              *)
+(* Body = the run of bytes up to the final byte or an aborting ESC;        *)
+(* InClaimCS says when that run consists of parameter bytes only (the      *)
+(* alphabet of the property's quantifier has no other kind of byte).       *)
 (***************************************************************************)
 RECURSIVE Scan(_, _, _, _, _)
 Scan(s, i, allowEmpty, acc, ntext) ==
   IF i > Len(s) THEN [text |-> << >>, seqs |-> << >>]
   ELSE IF IsCSIAt(s, i) THEN
-    LET j    == FirstFinal(s, i + 2)
+    LET j    == BodyStop(s, i + 2)
         body == IF j = 0 THEN SubSeq(s, i + 2, Len(s)) ELSE SubSeq(s, i + 2, j - 1)
-        term == IF j = 0 THEN << >> ELSE <<s[j]>>
-        next == IF j = 0 THEN Len(s) + 1 ELSE j + 1
+        term == IF j = 0 \/ s[j] = ESC THEN << >> ELSE <<s[j]>>         \* aborted by an ESC = unterminated
+        next == IF j = 0 THEN Len(s) + 1 ELSE IF s[j] = ESC THEN j ELSE j + 1
         okT  == (term # << >> \/ allowEmpty)
                 /\ (acc = << >> \/ term = << >> \/ \E k \in DOMAIN acc[1] : acc[1][k] = term[1])
     IN IF okT
@@ -95,9 +101,10 @@ RECURSIVE InClaimFrom(_, _)
 InClaimFrom(s, i) ==
   IF i > Len(s) THEN TRUE
   ELSE IF IsCSIAt(s, i) THEN
-    LET j == FirstFinal(s, i + 2)
+    LET j == BodyStop(s, i + 2)
         last == IF j = 0 THEN Len(s) ELSE j - 1
-    IN (\A k \in (i + 2)..last : IsParamByte(s[k])) /\ InClaimFrom(s, IF j = 0 THEN Len(s) + 1 ELSE j + 1)
+    IN (\A k \in (i + 2)..last : IsParamByte(s[k]))
+       /\ InClaimFrom(s, IF j = 0 THEN Len(s) + 1 ELSE IF s[j] = ESC THEN j ELSE j + 1)
   ELSE InClaimFrom(s, i + 1)
 InClaimCS(s) == InClaimFrom(s, 1)
 
